@@ -222,6 +222,9 @@ pub struct ParamDecl {
     pub skipped: bool,
     /// `T: Config` parameter: only used through `T::Inner`
     pub config: bool,
+    /// `T: HasCompact` parameter: instantiated with unsigned integers (or wrappers of them) only,
+    /// may be used as `#[codec(compact)] f: T` and `Compact<T>`
+    pub compactable: bool,
 }
 
 #[derive(Clone, Debug, PartialEq, Eq)]
@@ -408,6 +411,8 @@ impl Program {
                         .iter()
                         .map(|p| if p.config {
                             format!("{}: Config", p.name)
+                        } else if p.compactable {
+                            format!("{}: HasCompact", p.name)
                         } else {
                             p.name.clone()
                         })
